@@ -84,6 +84,8 @@ Definition run_op (sl sr : scaling) (o : op) : obs :=
   end.
 
 Definition close (scale a b : Q) : bool := Qleb (Qabs (a - b)) (tol * Qmax3 1 scale 0).
+(* encodings in [0,1]: 1e-9 plus the case's binary64 slack (ulp of the largest bound / size of the range) *)
+Definition close_enc (slack a b : Q) : bool := Qleb (Qabs (a - b)) (tol + slack).
 Definition val_close (scale : Q) (a b : val) : bool :=
   match a, b with
   | VF x, VF y => close scale x y
@@ -105,23 +107,24 @@ Definition domain_eqb (a b : domain) : bool :=
       Qeqb l l' && Qeqb h h' && Z.eqb n n' && Bool.eqb ls ls' && Bool.eqb ci ci'
   | _, _ => false
   end.
-Definition obs_close (scale : Q) (m i : obs) : bool :=
+Definition obs_close (scale slack : Q) (m i : obs) : bool :=
   match m, i with
   | ONone, ONone => true
   | OV a, OV b => val_close scale a b
-  | OVec a, OVec b => list_eqb (close 1) a b
-  | OBnd a, OBnd b => list_eqb (fun x y => close 1 (fst x) (fst y) && close 1 (snd x) (snd y)) a b
+  | OVec a, OVec b => list_eqb (close_enc slack) a b
+  | OBnd a, OBnd b => list_eqb (fun x y => close_enc slack (fst x) (fst y) && close_enc slack (snd x) (snd y)) a b
   | OB a, OB b => Bool.eqb a b
   | OVals a, OVals b => list_eqb (val_close scale) a b
   | ODom a, ODom b => domain_eqb a b
   | _, _ => false
   end.
 
-(* case = (to_log, from_log, to_rev, from_rev, scale, op, observed) *)
-Definition case := (tbl * tbl * tbl * tbl * Q * op * obs)%%type.
-Definition mk (tl fl tr fr : tbl) (s : Q) (o : op) (i : obs) : case := (tl, fl, tr, fr, s, o, i).
+(* case = (to_log, from_log, to_rev, from_rev, scale, slack, op, observed) *)
+Definition case := (tbl * tbl * tbl * tbl * Q * Q * op * obs)%%type.
+Definition mk (tl fl tr fr : tbl) (s sl : Q) (o : op) (i : obs) : case := (tl, fl, tr, fr, s, sl, o, i).
 Definition chk (c : case) : bool :=
-  let '(tl, fl, tr, fr, scale, o, i) := c in obs_close scale (run_op (tsc_log tl fl) (tsc_rev tr fr) o) i.
+  let '(tl, fl, tr, fr, scale, slack, o, i) := c in
+  obs_close scale slack (run_op (tsc_log tl fl) (tsc_rev tr fr) o) i.
 
 Definition shiftv (t : Q) (x : val) : val :=
   match x with VF y => VF (y + t * Qmax3 1 (Qabs y) 0) | _ => x end.
@@ -131,13 +134,33 @@ Definition perturb (t : Q) (o : op) : op :=
   | OpCast d x => OpCast d (shiftv t x)
   | OpMember d x => OpMember d (shiftv t x)
   | OpToNd ds xs => OpToNd ds (map (shiftv t) xs)
-  | OpFromNd ds v => OpFromNd ds (map (fun x => x + t) v)
+  | OpFromNd ds v => OpFromNd ds (map (fun x => Qclip (x + t) 0 1) v)
   | _ => o
   end.
+(* a discrete answer must lie between the model's answers at the two perturbed inputs
+   (decode, cast and the samplers are monotone in their scalar input) *)
+Definition val_between (scale : Q) (a b i : val) : bool :=
+  match a, b, i with
+  | VI x, VI y, VI z => Z.leb (Z.min x y) z && Z.leb z (Z.max x y)
+  | _, _, _ => val_close scale a i || val_close scale b i
+  end.
+Fixpoint vals_between (scale : Q) (a b i : list val) : bool :=
+  match a, b, i with
+  | [], [], [] => true
+  | x :: a', y :: b', z :: i' => val_between scale x y z && vals_between scale a' b' i'
+  | _, _, _ => false
+  end.
+Definition obs_between (scale slack : Q) (a b i : obs) : bool :=
+  match a, b, i with
+  | OV x, OV y, OV z => val_between scale x y z
+  | OVals x, OVals y, OVals z => vals_between scale x y z
+  | _, _, _ => obs_close scale slack a i || obs_close scale slack b i
+  end.
 Definition chk_boundary (c : case) : bool :=
-  let '(tl, fl, tr, fr, scale, o, i) := c in
-  obs_close scale (run_op (tsc_log tl fl) (tsc_rev tr fr) (perturb tol o)) i ||
-  obs_close scale (run_op (tsc_log tl fl) (tsc_rev tr fr) (perturb (- tol) o)) i.
+  let '(tl, fl, tr, fr, scale, slack, o, i) := c in
+  let t := tol + slack in
+  obs_between scale slack (run_op (tsc_log tl fl) (tsc_rev tr fr) (perturb (- t) o))
+                          (run_op (tsc_log tl fl) (tsc_rev tr fr) (perturb t o)) i.
 """ % (q(EPS), q(float(np.exp(1.0))))
 
 
@@ -243,6 +266,16 @@ def spec_of_real(d):
         s["kind"] = "q" + kind
         s["q"] = qv
     return s
+
+
+def spec_slack(spec):
+    """binary64 slack of an encoded coordinate of an integer range with linear scaling: the internal value
+    v * size + lower carries an error of a few ulps of the largest bound (the EPS margin itself is below half an
+    ulp from 2**26 on), i.e. ulp / size in the unit interval.  0 for everything else."""
+    if spec["kind"] not in ("randint", "qrandint"):
+        return 0.0
+    lo, hi = spec["lower"], spec["upper"]
+    return 8 * math.ulp(float(max(abs(lo), abs(hi)) + 1)) / (hi - lo + 1)
 
 
 def spec_scale(spec):
@@ -615,9 +648,11 @@ class Cases:
     def __init__(self):
         self.terms, self.meta = [], []
 
-    def add(self, tb, scale, op_term, obs_term, meta):
-        self.terms.append("(mk %s %s %s %s %s %s %s)" % (tb.term("tl"), tb.term("fl"), tb.term("tr"),
-                                                          tb.term("fr"), q(scale), op_term, obs_term))
+    def add(self, tb, scale, op_term, obs_term, meta, slack=0.0):
+        self.terms.append("(mk %s %s %s %s %s %s %s %s)" % (tb.term("tl"), tb.term("fl"), tb.term("tr"),
+                                                             tb.term("fr"), q(scale), q(slack), op_term, obs_term))
+        if slack > 1e-9:
+            meta = dict(meta, slack=slack)
         self.meta.append(meta)
 
 
@@ -987,11 +1022,16 @@ def range_cases(ctx, C, spec, active, dom, adom, hpr, rng, count, scale):
             continue   # no round trip of a non-member
         elif ca is not None:
             act_zero = onehot and all(v[i] == 0.0 for i, c in enumerate(spec["categories"]) if c in active["categories"])
+            absorbed = None
+            if kind in ("randint", "lograndint") and isinstance(x, int):
+                # is the 1e-8 margin of [l - 0.5 + EPS, u + 0.5 - EPS] lost in binary64 at the violated active bound?
+                bnd = float(active["lower"] if x < active["lower"] else active["upper"])
+                absorbed = bool(bnd + 0.5 - EPS == bnd + 0.5 or bnd - 0.5 + EPS == bnd - 0.5)
             ctx.violation("property", "from_ndarray(%r) (inside get_ndarray_bounds %r) of %r with active %r = %r: outside the active sub-range" % (
                 v, bounds, dom, adom, x), case=case,
                 signature=dict(domain=dname, constructor=kind, op="from_ndarray", defect="decoded_outside_active",
                                encoding="one-hot" if onehot else "scalar", magnitude=ca["magnitude"],
-                               scaling=scaling_name(kind),
+                               scaling=scaling_name(kind), eps_margin_absorbed=absorbed,
                                vector="active_coords_all_zero" if act_zero else "other"))
         # ---- encode the decoded member: round trip
         oke, enc = call(lambda: hpr.to_ndarray({"x": x}))
